@@ -1,14 +1,17 @@
 package main
 
 import (
+	"bytes"
 	"fmt"
 	"math/rand"
 	"os"
+	"os/exec"
 	"strings"
+	"time"
 )
 
 var fuzzTokens = []string{"##!", "##!>", "##!<", "##!=>", "##!=<", "##!+", "##!^", "##!$", " assemble", " cmdline", " unix", " windows", " include", " include-except", " define", " name", " inc1", " --", " @", " ~",
-	"\n", "\n", "\n", "\r\n", " ", "\t", "(", ")", "(?:", "(?i:", "(?i)", "(?s:", "(?-s:", "(?m)", "\\(", "\\)", "\\(?i:", "\\\\(?i:", "[", "]", "[^", "\\]", "|", "*", "+", "?", "{", "}", "{2,3}", "{{", "}}", "{{name}}",
+	"\n", "\n", "\n", "\r\n", " ", "\t", "(", ")", "(?:", "(?i:", "(?i)", "(?s:", "(?-s:", "(?m)", "(?i-s:", "(?im-s:", "\\(", "\\)", "\\(?i:", "\\\\(?i:", "[", "]", "[^", "\\]", "|", "*", "+", "?", "{", "}", "{2,3}", "{{", "}}", "{{name}}",
 	"\\", "\\\\", "\"", "\\\"", "'", "^", "$", ".", "\\s", "\\d", "\\x5c", "\\x{e9}", "a", "b", "foo", "A", "0", "é", "\xff", "\xc3", "\x00", "\x01", "\x0b", "\x7f", "-", "a-z", "i", "s", "x",
 	"\\t\\n\\f\\r ", "[\\s", "[\\t\\n\\f\\r -~]", "(?P<n>", "(?<n>", "\\Q", "\\E", "\\pL", "[[:alpha:]]", "\\b", "\\z"}
 
@@ -97,6 +100,49 @@ func oracleC19CLI(p *Pair, env *Env, a [][]byte) *Failure {
 	return nil
 }
 
+// an include file that is reached again while it is being read (directly or through another file): the command ends
+// promptly with a diagnostic — today because file descriptors run out — and not with a stack overflow or a hang.
+// The binary is started with a small descriptor limit so that "promptly" does not depend on the host's limit.
+// args: program, then i/e name content triples
+func oracleC19Cycle(p *Pair, env *Env, a [][]byte) *Failure {
+	sb := mkSandbox(env)
+	defer os.RemoveAll(sb)
+	t := Tree{"regex-assembly/include/": nil, "regex-assembly/exclude/": nil}
+	for i := 1; i+2 < len(a); i += 3 {
+		dir := "include"
+		if string(a[i]) == "e" {
+			dir = "exclude"
+		}
+		t["regex-assembly/"+dir+"/"+string(a[i+1])] = a[i+2]
+	}
+	_ = t.write(sb)
+	cmd := exec.Command("bash", "-c", `ulimit -n 256; ulimit -v 4000000; exec "$0" -l disabled regex generate -`, env.cli)
+	cmd.Dir = sb
+	cmd.Stdin = bytes.NewReader(a[0])
+	var so, se bytes.Buffer
+	cmd.Stdout, cmd.Stderr = &so, &se
+	if err := cmd.Start(); err != nil {
+		return nil
+	}
+	done := make(chan error, 1)
+	go func() { done <- cmd.Wait() }()
+	select {
+	case <-done:
+	case <-time.After(env.timeout):
+		_ = cmd.Process.Kill()
+		<-done
+		return &Failure{What: "generate hangs on an include cycle", Detail: fmt.Sprintf("program %q files %q", a[0], a[1:])}
+	}
+	es := se.String()
+	if strings.Contains(es, "stack overflow") || strings.Contains(es, "goroutine stack exceeds") || strings.Contains(es, "runtime error") || strings.Contains(es, "out of memory") || strings.Contains(es, "cannot allocate memory") {
+		return &Failure{What: "generate dies from a runtime fault on an include cycle", Detail: fmt.Sprintf("program %q files %q\n%s", a[0], a[1:], tail(es, 400))}
+	}
+	if cmd.ProcessState != nil && cmd.ProcessState.ExitCode() == 0 {
+		return &Failure{What: "generate succeeds on an include cycle", Detail: fmt.Sprintf("%q", so.String())}
+	}
+	return nil
+}
+
 func genC19(r *rand.Rand, tier string, env *Env) []Case {
 	n, nFuzz, nCli, maxTok := 200, 500, 25, 40
 	if tier == "thorough" {
@@ -122,6 +168,15 @@ func genC19(r *rand.Rand, tier string, env *Env) []Case {
 		// the same inside an include file and an exclusion file
 		args := append(append([][]byte{}, empty...), []byte("##!> include cyc\n##!> include-except words cyc\nx\n"), []byte("i"), []byte("cyc.ra"), []byte("##!> define a p{{b}}\n##!> define b {{a}}q\n{{a}}\nw\n"), []byte("i"), []byte("words.ra"), []byte("w\nv\n"))
 		cases = append(cases, Case{Kind: "fixed", Ops: []Op{{"gen.run", args}}, Oracles: []Op{{"c19.nocrash", args}, {"c19.cli", args}}})
+	}
+	// include cycles, through the binary only (in process a runaway recursion would take the worker with it)
+	for _, cyc := range [][][]byte{
+		{[]byte("##!> include self\nx\n"), []byte("i"), []byte("self.ra"), []byte("##!> include self\nabc\n")},
+		{[]byte("##!> include ping\n"), []byte("i"), []byte("ping.ra"), []byte("a\n##!> include pong\n"), []byte("i"), []byte("pong.ra"), []byte("##!> include ping\nb\n")},
+		{[]byte("##!> include-except self none\n"), []byte("i"), []byte("self.ra"), []byte("##!> include-except self none\nabc\n"), []byte("e"), []byte("none.ra"), []byte("z\n")},
+		{[]byte("##!> include-except words loop\n"), []byte("i"), []byte("words.ra"), []byte("a\nb\n"), []byte("e"), []byte("loop.ra"), []byte("##!> include loop\n")},
+	} {
+		cases = append(cases, Case{Kind: "include-cycle", Oracles: []Op{{"c19.cycle", cyc}}})
 	}
 	for i := 0; i < n; i++ {
 		p := genProgram(r, progOpts{maxDepth: 2, maxItems: 5, includes: true, defs: true, cmdline: true, exotic: 0.5, malformed: 0.2, flagsPfxSf: true, inline: []float64{0, 0.3}[i%2]})
@@ -160,6 +215,7 @@ func genC19(r *rand.Rand, tier string, env *Env) []Case {
 func init() {
 	oracles["c19.nocrash"] = oracleC19
 	oracles["c19.cli"] = oracleC19CLI
+	oracles["c19.cycle"] = oracleC19Cycle
 	properties["C19"] = &Property{
 		ID: "C19", LeanMods: []string{"CrsProps.C19"},
 		Corr: "K2 (parser.Parse), K3 (clean-up passes on arbitrary text: same fault class in model and code), K5 (Operator.Run end to end, real rassemble.Join answers fed to the model; every Join result monitored for the EngineShape assumption)",
